@@ -104,6 +104,16 @@ theorem watermark_le_max (res md : Int) (idx : Nat) (pre : List Msg) (hres : 0 <
   have := floorTo_le hres m
   omega
 
+/-- **the time field**: when `OutputSchema` accepts the `time_field` descriptor, the `TimeField` it declares is the
+    first column with that name, that column has type Time, and `Materialize` picks the same column for the
+    running node (so the event times stamped at run time are those of the declared time field) -/
+theorem time_field_agrees (want : String) (fields : List (String × Bool)) (i : Nat)
+    (h : schemaTimeField want fields 0 = .ok i) :
+    materializeIndex want fields 0 = some i ∧ fields[i]? = some (want, true) ∧
+    ∀ j, j < i → ∀ f, fields[j]? = some f → f.1 ≠ want := by
+  obtain ⟨_, h2, h3, h4⟩ := schemaTimeField_spec want fields 0 i h
+  exact ⟨h2, by simpa using h3, by simpa using h4⟩
+
 /-! ## Full statement, proved for the current code, refuted for the shipped code -/
 
 /-- the full-strength statement of C20 for an implementation `run` -/
@@ -170,6 +180,9 @@ example : (run .fixed 3 10 0 demo).toOption.map wms = some [-23, -3, 17] := by d
 example : InDomain 0 [tRec 15, tRec 12, tRec 31] ∧ ∀ t ∈ times 0 [tRec 15, tRec 12, tRec 31], 0 ≤ t := by
   refine ⟨inDomain_of_B (by decide), ?_⟩
   decide
+example : schemaTimeField "t" [("a", false), ("t", true), ("t", false)] 0 = .ok 1 := by simp [schemaTimeField]
+example : schemaTimeField "a" [("a", false), ("t", true)] 0 = .error .err ∧ schemaTimeField "z" [("a", false)] 0 = .error .err := by
+  simp [schemaTimeField]
 /-- `record_rule` both ways: a record at the watermark is dropped, one just above is kept -/
 example : (recs (spec 10 0 0 [tRec 25, tRec 20])).length = 1 ∧ (recs (spec 10 0 0 [tRec 25, tRec 21])).length = 2 := by
   decide
